@@ -145,6 +145,11 @@ impl PacketReceiver {
     }
 
     #[cfg(feature = "verif")]
+    pub fn verif_max_alloc(&self) -> usize {
+        self.assembly_window.verif_max_alloc()
+    }
+
+    #[cfg(feature = "verif")]
     pub fn verif_dud_count(&self) -> u64 {
         self.assembly_window.verif_dud_count()
     }
